@@ -272,10 +272,20 @@ func ReadFixedString(buf *bytes.Buffer, fixedLen int) (string, error) {
 func ReadFixedStringTrimPadding(buf *bytes.Buffer, fixedLen int, padChar rune, padLeft bool) (string, error) {
 	strBytes := make([]byte, fixedLen)
 	_, err := io.ReadFull(buf, strBytes)
+	// Strip the pad byte itself (the writer pads with byte(padChar)), not the
+	// UTF-8 encoding of padChar, and only on the pad side.
+	pad := byte(padChar)
+	start, end := 0, len(strBytes)
 	if padLeft {
-		return string(bytes.TrimLeft(strBytes, string(padChar))), err
+		for start < end && strBytes[start] == pad {
+			start++
+		}
+	} else {
+		for end > start && strBytes[end-1] == pad {
+			end--
+		}
 	}
-	return string(bytes.TrimRight(strBytes, string(padChar))), err
+	return string(strBytes[start:end]), err
 }
 
 func ReadFixedStringList[T constraints.Unsigned](buf *bytes.Buffer, fixedLen int) ([]string, error) {
